@@ -531,7 +531,8 @@ def ob_native():
 
 
 @obligation("native/antenna_sampled", kind="bounded",
-            desc="antenna pattern on a 0.5 degree grid in [-180,180], both sector counts, scalar and array angles")
+            desc="antenna pattern on a 0.5 degree grid in [-180,180], both sector counts, scalar and array angles; whole-degree angles "
+                 "as int8/int16/int32/int64/float32/float64 arrays and Python ints give the same gains")
 def ob_native_antenna():
     import pyphysim.channels.antennagain as ag
 
@@ -549,5 +550,25 @@ def ob_native_antenna():
         floor = o.ant_gain * 10 ** (-o.Am / 10)
         if (not (g.min() >= floor * (1 - 1e-12))):
             return {"floor": [float(g.min()), float(floor)]}
+        # the same whole-degree angles in every integer / float representation a caller may hold them in
+        deg = np.arange(-180, 181, 1)
+        ref = np.array([o.get_antenna_gain(float(t)) for t in deg])
+        for rep in ("int16", "int32", "int64", "float32", "float64", "python ints"):
+            for lo, hi in ((-180, 180), (-127, 127)):
+                sel = (deg >= lo) & (deg <= hi)
+                if rep == "python ints":
+                    got = np.array([o.get_antenna_gain(int(x)) for x in deg[sel]])
+                    arg = None
+                else:
+                    arg = deg[sel].astype(rep)
+                if arg is not None:
+                    got = np.asarray(o.get_antenna_gain(arg), dtype=float)
+                tol = 1e-5 if rep == "float32" else 1e-12
+                if got.shape != ref[sel].shape or (not (np.abs(got - ref[sel]).max() <= tol * ref.max())):
+                    return {"angles as %s in [%d, %d]" % (rep, lo, hi): float(np.abs(got - ref[sel]).max()) if got.shape == ref[sel].shape else "shape"}
+        got8 = np.asarray(o.get_antenna_gain(np.arange(-127, 128, 1).astype(np.int8)), dtype=float)
+        sel8 = (deg >= -127) & (deg <= 127)
+        if (not (np.abs(got8 - ref[sel8]).max() <= 1e-12 * ref.max())):
+            return {"angles as int8": float(np.abs(got8 - ref[sel8]).max())}
         return None
     return bounded([{"sectors": 3}, {"sectors": 6}], check)
